@@ -7,7 +7,8 @@
    protoreflect.Message (assumption stated in DESIGN §6 C10, §8: they reach a message only through
    that interface; the generated ProtoMethods leave Merge and CheckInitialized nil). JSON and text are
    not modelled: the theorems hold for EVERY client. *)
-From CP Require Import Readers ReadersProofs.
+From CP Require Import Readers ReadersProofs LibSpec LibSpecProofs.
+From Coq Require Import Permutation.
 Local Open Scope N_scope.
 
 (* the simulation lemma, for any two transition systems with the same operations and outputs: a
@@ -78,4 +79,80 @@ Example client_example :
   snd (run_client (step ex_schema) ex_client ex_heap) = Some 2%nat /\
   snd (run_fclient (step ex_schema) 10 ex_fclient [] ex_heap) = Some (Some 2%nat) /\
   snd (run_client (step ex_schema) ex_client (fst (step ex_schema [] (ONew 0)))) = None.
+Proof. vm_compute. repeat split; reflexivity. Qed.
+
+(* ---- proto.Equal's decision procedure on values (Model/LibSpec.v [equal_msg], the function run against
+   proto.Equal on generated messages by engine `lib`, case lines LIBEQ) is an equivalence relation on
+   the well-typed values of a well-formed schema, at every depth, and is implied by equality of the
+   denotation [canon ∘ norm] of RefSpec.
+
+   Side conditions, stated as they are. NaN needs none: protobuf-go v1.34 (equalFloat) treats every
+   NaN as equal to every NaN, itself included, and so does the model; reflexivity holds for values
+   holding NaNs. [wt_msg] (Model/WF.v: what a Go struct can hold) is needed because raw value syntax
+   can list a map key twice or give a message a wrong number of slots; [wf] because a map key must be
+   of a legal key kind (val_key_eqb is not reflexive on float bit patterns). Without them symmetry and
+   transitivity fail: see [equal_msg_laws_need_well_typedness] below. ---- *)
+Theorem equal_msg_refl : forall sch, wf sch = true -> forall mid v,
+  wt_msg sch mid v = true -> equal_msg sch mid v v = true.
+Proof. exact LibSpecProofs.equal_msg_refl_lemma. Qed.
+
+Theorem equal_msg_sym : forall sch, wf sch = true -> forall mid v1 v2,
+  wt_msg sch mid v1 = true -> wt_msg sch mid v2 = true ->
+  equal_msg sch mid v1 v2 = equal_msg sch mid v2 v1.
+Proof. exact LibSpecProofs.equal_msg_sym_bool. Qed.
+
+Theorem equal_msg_trans : forall sch, wf sch = true -> forall mid v1 v2 v3,
+  wt_msg sch mid v1 = true -> wt_msg sch mid v2 = true -> wt_msg sch mid v3 = true ->
+  equal_msg sch mid v1 v2 = true -> equal_msg sch mid v2 v3 = true -> equal_msg sch mid v1 v3 = true.
+Proof. exact LibSpecProofs.equal_msg_trans_lemma. Qed.
+
+(* messages with the same denotation are Equal (the converse is false: see the example) *)
+Theorem canon_norm_implies_equal : forall sch, wf sch = true -> forall mid v1 v2,
+  wt_msg sch mid v1 = true -> wt_msg sch mid v2 = true ->
+  canon (norm sch mid v1) = canon (norm sch mid v2) -> equal_msg sch mid v1 v2 = true.
+Proof. exact LibSpecProofs.canon_norm_implies_equal_lemma. Qed.
+
+(* corollaries for one slot of the message (maps and containers nested deeper are covered by
+   canon_norm_implies_equal, whose hypothesis is about every depth): the order in which a map lists its
+   entries (Go's iteration order, the insertion history) is irrelevant ... *)
+Theorem equal_msg_ignores_map_order : forall sch, wf sch = true -> forall mid slots unk i kvs1 kvs2,
+  wt_msg sch mid (VMsg slots unk) = true -> wt_msg sch mid (VMsg (set_nth slots i (VMap kvs2)) unk) = true ->
+  nth_error slots i = Some (VMap kvs1) -> Permutation kvs1 kvs2 ->
+  equal_msg sch mid (VMsg slots unk) (VMsg (set_nth slots i (VMap kvs2)) unk) = true.
+Proof. exact LibSpecProofs.map_order_lemma. Qed.
+
+(* ... and so is nil versus empty, for slices, maps and bytes (whichever of the four the field's type admits) *)
+Theorem equal_msg_nil_empty : forall sch, wf sch = true -> forall mid slots unk i a b,
+  wt_msg sch mid (VMsg slots unk) = true -> wt_msg sch mid (VMsg (set_nth slots i b) unk) = true ->
+  nth_error slots i = Some a ->
+  In a [VNil; VList []; VMap []; VBytes []] -> In b [VNil; VList []; VMap []; VBytes []] ->
+  equal_msg sch mid (VMsg slots unk) (VMsg (set_nth slots i b) unk) = true.
+Proof. exact LibSpecProofs.nil_empty_lemma. Qed.
+
+(* non-vacuity and sharpness *)
+Definition eq_schema : schema :=
+  [ {| m_fields := [ {| f_num := 1; f_ty := TScalar KInt32; f_shape := MapOf KInt32 |};
+                     {| f_num := 2; f_ty := TMsg 0; f_shape := Rep false |};
+                     {| f_num := 3; f_ty := TScalar KDouble; f_shape := Rep true |};
+                     {| f_num := 4; f_ty := TScalar KFloat; f_shape := Singular |} ]; m_oneofs := 0; m_impl := Pulsar |} ].
+(* NaNs of different payloads and signs, +0 / -0 as list elements, a float NaN in a singular field *)
+Definition nanA := VMsg [VNil; VNil; VList [VBits 9221120237041090561; VBits 0]; VBits 2143289344] [].
+Definition nanB := VMsg [VMap []; VList []; VList [VBits 18444492273895866368; VBits 9223372036854775808]; VBits 4290772993] [].
+Example equal_msg_nan_zero_example :
+  wf eq_schema = true /\ wt_msg eq_schema 0 nanA = true /\ wt_msg eq_schema 0 nanB = true /\
+  equal_msg eq_schema 0 nanA nanA = true /\                       (* a message holding NaNs equals itself *)
+  equal_msg eq_schema 0 nanA nanB = true /\                       (* any NaN = any NaN, +0 = -0 in a list *)
+  canon (norm eq_schema 0 nanA) <> canon (norm eq_schema 0 nanB). (* so canon ∘ norm is strictly finer *)
+Proof. vm_compute. repeat split; try reflexivity. discriminate. Qed.
+
+(* ill-typed values (a key listed twice; a list element with no slots): symmetry and transitivity fail *)
+Definition dupA := VMsg [VMap [(VInt 1, VInt 5); (VInt 1, VInt 5)]; VNil; VNil; VBits 0] [].
+Definition dupB := VMsg [VMap [(VInt 1, VInt 5); (VInt 2, VInt 6)]; VNil; VNil; VBits 0] [].
+Definition tA := VMsg [VNil; VList [VMsg [] []]; VNil; VBits 0] [].
+Definition tB := VMsg [VNil; VList [VNil]; VNil; VBits 0] [].
+Definition tC := VMsg [VNil; VList [VMsg [VNil; VNil; VNil; VBits 0] []]; VNil; VBits 0] [].
+Example equal_msg_laws_need_well_typedness :
+  (wt_msg eq_schema 0 dupA = false /\ equal_msg eq_schema 0 dupA dupB = true /\ equal_msg eq_schema 0 dupB dupA = false) /\
+  (wt_msg eq_schema 0 tA = false /\ equal_msg eq_schema 0 tA tB = true /\ equal_msg eq_schema 0 tB tC = true /\
+   equal_msg eq_schema 0 tA tC = false).
 Proof. vm_compute. repeat split; reflexivity. Qed.
